@@ -5,6 +5,7 @@ import (
 	"crypto/sha256"
 	"fmt"
 	"os"
+	"strings"
 	"sync"
 	"time"
 
@@ -18,6 +19,7 @@ func init() {
 	execs["c12.script"] = execC12Script
 	execs["c12.race"] = execC12Race
 	execs["c12.seq"] = execC12Seq
+	execs["c12.auth"] = execC12Auth
 	gens["C12"] = genC12
 }
 
@@ -98,6 +100,20 @@ func c12Wave(r *prng.R, g *c12Datum, nconn, from, to int, mayDrop bool) (ops []s
 			early = append(early, i)
 		}
 	}
+	// the caller's context of each call; short deadlines and cancellation only for
+	// calls that are never answered (which select branch wins is then not a race)
+	unanswered := map[int]bool{}
+	startOp := func(i int) sx.V {
+		switch k := r.Intn(100); {
+		case unanswered[i] && k < 25:
+			return c12Op("startctx", uint64(i), 2)
+		case unanswered[i] && k < 50:
+			return c12Op("startctx", uint64(i), 3)
+		case k < 70:
+			return c12Op("start", uint64(i))
+		}
+		return c12Op("startctx", uint64(i), 1)
+	}
 	fate := func(i int) []sx.V {
 		ui := uint64(i)
 		ans := func() sx.V { return c12Op("ans", conn(), ui, g.next(r)) }
@@ -108,6 +124,7 @@ func c12Wave(r *prng.R, g *c12Datum, nconn, from, to int, mayDrop bool) (ops []s
 		case k < 65:
 			return []sx.V{ans(), ans()}
 		case k < 75:
+			unanswered[i] = true
 			return nil
 		case k < 82:
 			return []sx.V{mal(), ans()}
@@ -135,23 +152,24 @@ func c12Wave(r *prng.R, g *c12Datum, nconn, from, to int, mayDrop bool) (ops []s
 	// late starters: the start op at a random place, their packets after it
 	for _, i := range late {
 		p := r.Intn(len(ems) + 1)
-		rest := append([]sx.V{c12Op("start", uint64(i))}, ems[p:]...)
+		fi := fate(i)
+		rest := append([]sx.V{startOp(i)}, ems[p:]...)
 		ems = append(append([]sx.V{}, ems[:p]...), rest...)
-		for _, e := range fate(i) {
+		for _, e := range fi {
 			q := p + 1 + r.Intn(len(ems)-p)
 			tail := append([]sx.V{e}, ems[q:]...)
 			ems = append(append([]sx.V{}, ems[:q]...), tail...)
 		}
 	}
 	for _, i := range early {
-		ops = append(ops, c12Op("start", uint64(i)))
+		ops = append(ops, startOp(i))
 	}
 	// a connection dies after the last start; later packets go elsewhere
 	if mayDrop && nconn >= 2 && r.Chance(30) {
 		drop = true
 		last := 0
 		for j, e := range ems {
-			if e.Head() == "start" {
+			if e.Head() == "start" || e.Head() == "startctx" {
 				last = j + 1
 			}
 		}
@@ -175,6 +193,21 @@ func c12Wave(r *prng.R, g *c12Datum, nconn, from, to int, mayDrop bool) (ops []s
 		ems = out
 	}
 	ops = append(ops, ems...)
+	// most cancel-only contexts are cancelled by the caller, somewhere after the start
+	for j := 0; j < len(ops); j++ {
+		if ops[j].Head() == "startctx" && ops[j].List[2].U64() == 3 && r.Chance(70) {
+			q := j + 1
+			for q < len(ops) && (ops[q].Head() == "start" || ops[q].Head() == "startctx") {
+				q++ // not inside a concurrent batch
+			}
+			q += r.Intn(len(ops) - q + 1)
+			for q < len(ops) && (ops[q].Head() == "start" || ops[q].Head() == "startctx") {
+				q++
+			}
+			tail := append([]sx.V{c12Op("cancel", ops[j].List[1].U64())}, ops[q:]...)
+			ops = append(append([]sx.V{}, ops[:q]...), tail...)
+		}
+	}
 	ops = append(ops, c12Op("finish"), c12Op("reg"))
 	return ops, drop
 }
@@ -335,6 +368,7 @@ func genC12(c *Ctx) {
 		{"script|fixed|malformed-then-answer", "(n1 n2 (('start n0) ('start n1) ('mal n0 n0 n3) ('ans n0 n0 n800) ('mal n0 n1 n1) ('finish) ('reg)))"},
 		{"script|fixed|empty-answer", "(n1 n1 (('start n0) ('ans n0 n0 n800) ('finish) ('reg)))"},
 		{"script|fixed|len-253-254", "(n2 n2 (('start n0) ('start n1) ('ans n1 n0 n8fd) ('ans n0 n1 n10fe) ('finish) ('reg)))"},
+		{"script|fixed|caller-contexts", "(n1 n4 (('startctx n0 n1) ('startctx n1 n2) ('startctx n2 n3) ('startctx n3 n3) ('ans n0 n0 n808) ('cancel n2) ('finish) ('reg)))"},
 		{"script|fixed|late-answer-next-wave", "(n1 n2 (('start n0) ('finish) ('reg) ('ans n0 n0 n808) ('reg) ('start n1) ('ans n0 n0 n1008) ('ans n0 n1 n1808) ('finish) ('reg)))"},
 	}
 	for _, f := range fixed {
@@ -416,6 +450,21 @@ func genC12(c *Ctx) {
 		c.Emit(j.kind, j.in, j.class)
 		for _, f := range j.fails {
 			c.Fail(j.kind, j.in, f.key, f.what)
+		}
+	}
+	// real constructors with and without an auth key, in the guarded child (while
+	// the wall-clock scenarios are still running)
+	for n := 0; n < c.Scale(8, 24); n++ {
+		in := c12GenAuth(c.R.Fork(uint64(300000+n)), n)
+		class := fmt.Sprintf("auth|c%d|key%d", in.List[0].I(), in.List[1].I())
+		out := c.EmitGuarded("c12.auth", in, class).String()
+		switch {
+		case strings.Contains(out, "'crash") || strings.Contains(out, "'timeout"):
+			c.Fail("c12.auth", in, "process-crash", "the process died (or froze) during the scenario: "+out)
+		case strings.Contains(out, "'hang"):
+			c.Fail("c12.auth", in, "call-hangs", "a call under a caller deadline of 1 h did not return by the client timeout: "+trunc(out, 200))
+		case strings.Contains(out, "'noreconnect"):
+			c.Fail("c12.auth", in, "no-reconnect", "the connection was not re-established after a failed send: "+trunc(out, 200))
 		}
 	}
 	for range alive {
